@@ -327,8 +327,14 @@ class CallMixin:
                     self.st.ghost[g] = fresh(self.st.ghost[g].t, 'g_' + g)
                 continue
             if m == '*':
+                for sname, sc in self.spec.schemas.items():
+                    for fn, ft in sc.fields.items():
+                        self.heap_arr((sname, fn), ft)
                 for key in list(self.st.heap.keys()):
                     self.st.heap[key] = z3.Const(fresh_name('H_%s_%s' % key), self.st.heap[key].sort())
+                    self.written.add(key)
+                for g in list(self.st.ghost.keys()):
+                    self.st.ghost[g] = fresh(self.st.ghost[g].t, 'g_' + g)
                 continue
             sch, fld = m.split('.', 1)
             f = self.spec.field(sch, fld)
@@ -482,6 +488,11 @@ class CallMixin:
 
     def construct_pkt(self, ci, sc, args, kwargs):
         if args:
+            hook = self.spec.callbacks.get('dissect')
+            if hook is not None:
+                r = hook(self, ci, args)
+                if r is not None:
+                    return r
             raise Unsupported('packet dissection constructor %s(bytes) in verified code' % ci.qualname)
         ref = V(TPkt([ci.qualname]), self.new_ref())
         decl = self.pkt_defaults(ci)
